@@ -30,6 +30,7 @@ import (
 	"runtime"
 	"strings"
 	"sync"
+	"syscall"
 	"time"
 
 	"diagonal.works/b6"
@@ -44,41 +45,71 @@ import (
 
 // ---------- guarded execution ----------
 
-var workerMode = func() bool {
-	for _, a := range os.Args {
-		if strings.HasPrefix(a, "--worker") || strings.HasPrefix(a, "-worker") {
-			return true
-		}
-	}
-	return false
-}()
-
 const (
-	// A request against the 14-feature world normally takes well under 50 ms.
-	// In a worker process a request that does not finish is left running until
-	// the kit's CaseTimeout kills the worker; the kit then re-runs the case alone,
-	// where the watchdog below declares the hang after hangConfirm and names it.
-	caseTimeout = 6 * time.Second
-	hangConfirm = 5 * time.Second
-	memLimit    = 3 << 30
+	// A request against the 14-feature world needs well under 0.05 s of CPU.
+	// Hangs are judged by CPU time, not wall time (the machine may be heavily
+	// loaded): an evaluation that has not finished after burning hangCPU seconds
+	// of process CPU (and at least that much wall time), or after hangWall of
+	// wall time without finishing, is a hang.
+	hangCPU     = 3 * time.Second
+	hangWall    = 150 * time.Second
+	caseTimeout = 400 * time.Second // kit-level backstop only
+	memGrowth   = 1 << 30           // heap growth during one evaluation that is treated as unbounded
+	memLimit    = 4 << 30
 )
 
+// leaked counts evaluations that hung earlier in this process: a hung
+// goroutine cannot be stopped, keeps spinning and keeps burning CPU.
+var leaked int
+
+func cpuTime() time.Duration {
+	var ru syscall.Rusage
+	if err := syscall.Getrusage(syscall.RUSAGE_SELF, &ru); err != nil {
+		return 0
+	}
+	return time.Duration(ru.Utime.Nano() + ru.Stime.Nano())
+}
+
+func heapAlloc() uint64 {
+	var ms runtime.MemStats
+	runtime.ReadMemStats(&ms)
+	return ms.HeapAlloc
+}
+
+// hungStack returns the stack of the goroutine running the guarded function.
+func hungStack() string {
+	buf := make([]byte, 1<<20)
+	n := runtime.Stack(buf, true)
+	for _, g := range strings.Split(string(buf[:n]), "\n\n") {
+		if strings.Contains(g, "main.guarded.func1") && !strings.Contains(g, "main.hungStack") {
+			lines := strings.Split(g, "\n")
+			if len(lines) > 24 {
+				lines = lines[:24]
+			}
+			return strings.Join(lines, "\n")
+		}
+	}
+	return "(stack of the hung goroutine not found)"
+}
+
 // guarded runs f on its own goroutine. It returns the panic class/message of
-// f, or hung=true when f neither returned nor panicked within hangConfirm (or
-// the heap grew past memLimit). A hung f cannot be stopped: in a worker
-// process guarded keeps waiting (the kit kills the worker and re-runs the case
-// alone); alone, the hang is reported and the process exits after the case.
-func guarded(f func()) (class, msg string, hung bool) {
+// f, or hung=true with the stack of the hung goroutine when f neither
+// returned nor panicked within the limits above. A hung f cannot be stopped;
+// it is left spinning (the process is short-lived) unless it also allocates
+// without bound, in which case the process exits with the stack of the hung
+// goroutine on stderr (the kit records that as a crash of this case).
+func guarded(what string, f func()) (class, msg string, hung bool) {
 	done := make(chan struct{})
 	go func() {
 		defer close(done)
 		class, msg = kit.Catch(f)
 	}()
-	if workerMode {
-		<-done
+	select {
+	case <-done:
 		return class, msg, false
+	case <-time.After(200 * time.Millisecond):
 	}
-	start := time.Now()
+	start, cpu0, heap0 := time.Now().Add(-200*time.Millisecond), cpuTime(), heapAlloc()
 	tick := time.NewTicker(100 * time.Millisecond)
 	defer tick.Stop()
 	for {
@@ -86,14 +117,15 @@ func guarded(f func()) (class, msg string, hung bool) {
 		case <-done:
 			return class, msg, false
 		case <-tick.C:
-			over := time.Since(start) > hangConfirm
-			if !over && time.Since(start) > time.Second {
-				var ms runtime.MemStats
-				runtime.ReadMemStats(&ms)
-				over = ms.HeapAlloc > memLimit
+			wall := time.Since(start)
+			h := heapAlloc()
+			if h > heap0+memGrowth || h > memLimit {
+				fmt.Fprintf(os.Stderr, "c23: evaluation of %s does not finish and allocates without bound (heap %d MB after %v); stack of the evaluating goroutine:\n\n%s\n", what, h>>20, wall, hungStack())
+				os.Exit(3)
 			}
-			if over {
-				return "", "", true
+			if (cpuTime()-cpu0 >= hangCPU*time.Duration(leaked+1) && wall >= hangCPU) || wall >= hangWall {
+				leaked++
+				return "", hungStack(), true
 			}
 		}
 	}
@@ -130,6 +162,8 @@ type obs struct {
 	msg     string
 	errText string
 	inApply bool // the panic happened while applying the returned change
+	decode  bool // the panic happened in b6.ExpressionFromProto
+	nilVal  bool // evaluated to a nil value without an error
 }
 
 func roundTrip(req *pb.EvaluateRequestProto) (*pb.EvaluateRequestProto, error) {
@@ -156,12 +190,13 @@ func newContext(base b6.World) *api.Context {
 	return c
 }
 
-// pathA: decode + api.Evaluate + full consumption.
+// pathA: decode + api.Evaluate + apply a returned change + full consumption.
 func pathA(what string, req *pb.EvaluateRequestProto, world int) obs {
 	var o obs
-	capped, inApply := false, false
-	class, msg, hung := guarded(func() {
+	capped, inApply, decoded := false, false, false
+	class, msg, hung := guarded(what, func() {
 		e, err := b6.ExpressionFromProto(req.Request)
+		decoded = true
 		if err != nil {
 			o.outcome, o.errText = "error", err.Error()
 			return
@@ -172,6 +207,7 @@ func pathA(what string, req *pb.EvaluateRequestProto, world int) obs {
 			o.outcome, o.errText = "error", err.Error()
 			return
 		}
+		o.nilVal = v == nil
 		if change, ok := v.(ingest.Change); ok {
 			// every entry point (grpc service, api.Evaluator) applies a returned change
 			inApply = true
@@ -188,9 +224,9 @@ func pathA(what string, req *pb.EvaluateRequestProto, world int) obs {
 	})
 	switch {
 	case hung:
-		return obs{outcome: "hang", class: "hang", msg: fmt.Sprintf("api.Evaluate + consumption did not finish within %v", hangConfirm)}
+		return obs{outcome: "hang", class: "hang", msg: fmt.Sprintf("api.Evaluate + consumption did not finish after %v of CPU time; stack of the evaluating goroutine:\n%s", hangCPU, msg)}
 	case class != "":
-		return obs{outcome: "panic", class: class, msg: msg, inApply: inApply}
+		return obs{outcome: "panic", class: class, msg: msg, inApply: inApply, decode: !decoded}
 	case capped:
 		o.outcome = "capped"
 	}
@@ -200,7 +236,7 @@ func pathA(what string, req *pb.EvaluateRequestProto, world int) obs {
 // pathB: the gRPC service.
 func pathB(what string, req *pb.EvaluateRequestProto, world int) obs {
 	var o obs
-	class, msg, hung := guarded(func() {
+	class, msg, hung := guarded(what, func() {
 		var lock sync.RWMutex
 		svc := b6grpc.NewB6Service(&ingest.MutableWorlds{Base: baseWorld(world)}, api.Options{Cores: 2, FileIOAllowed: false}, &lock)
 		_, err := svc.Evaluate(context.Background(), req)
@@ -212,24 +248,31 @@ func pathB(what string, req *pb.EvaluateRequestProto, world int) obs {
 	})
 	switch {
 	case hung:
-		return obs{outcome: "hang", class: "hang", msg: fmt.Sprintf("grpc service Evaluate did not finish within %v", hangConfirm)}
+		return obs{outcome: "hang", class: "hang", msg: fmt.Sprintf("grpc service Evaluate did not finish after %v of CPU time; stack of the evaluating goroutine:\n%s", hangCPU, msg)}
 	case class != "":
 		return obs{outcome: "panic", class: class, msg: msg}
 	}
 	return o
 }
 
-// evalRequest runs both paths and returns the distinct violation classes
-// (suffixes) with messages, plus the outcome summary.
-func evalRequest(what string, req *pb.EvaluateRequestProto, world int) (viol map[string]string, outcome string, reached bool) {
-	viol = map[string]string{}
+// failure is one observed violation of a request before attribution.
+type failure struct {
+	class  string // panic@site or hang
+	msg    string
+	decode bool
+}
+
+// evalRequest runs both paths and returns the distinct failures, the outcome
+// summary, whether the request reached a function body and whether it
+// evaluated to a nil value.
+func evalRequest(what string, req *pb.EvaluateRequestProto, world int) (fails []failure, outcome string, reached, nilVal bool) {
 	rt, err := roundTrip(req)
 	if err != nil {
-		return viol, "unsendable", false // not expressible on the wire: not a client request
+		return nil, "unsendable", false, false // not expressible on the wire: not a client request
 	}
 	a := pathA(what, rt, world)
 	if a.class != "" {
-		viol[a.class] = "[api.Evaluate path] " + a.msg
+		fails = append(fails, failure{a.class, "[api.Evaluate path] " + a.msg, a.decode})
 	}
 	b := obs{outcome: "skipped"}
 	// The service is skipped when the result is too large to serialise uncapped,
@@ -240,46 +283,73 @@ func evalRequest(what string, req *pb.EvaluateRequestProto, world int) (viol map
 		rt2, _ := roundTrip(req)
 		b = pathB(what, rt2, world)
 		if b.class != "" {
-			if _, dup := viol[b.class]; dup {
-				viol[b.class] = "[api.Evaluate path and grpc service path] " + a.msg
+			if len(fails) == 1 && fails[0].class == b.class {
+				fails[0].msg = "[api.Evaluate path and grpc service path] " + a.msg
 			} else {
-				viol[b.class] = "[grpc service path] " + b.msg
+				fails = append(fails, failure{b.class, "[grpc service path] " + b.msg, false})
 			}
 		}
 	}
 	// reached: the request got past argument conversion into the function body
 	reached = a.outcome == "value" || a.outcome == "capped" || a.outcome == "panic" || a.outcome == "hang" ||
 		(a.outcome == "error" && !strings.Contains(a.errText, "expected") && !strings.Contains(a.errText, "undefined symbol"))
-	return viol, a.outcome + "/" + b.outcome, reached
+	return fails, a.outcome + "/" + b.outcome, reached, a.nilVal
 }
 
 func request(p *pb.NodeProto) *pb.EvaluateRequestProto {
 	return &pb.EvaluateRequestProto{Request: p, Version: b6.ApiVersion}
 }
 
+// panicKind is a coarse classification of a panic message, used to tell
+// apart the several defects that live in one generic VM function.
+func panicKind(msg string) string {
+	first := msg
+	if i := strings.IndexByte(first, '\n'); i >= 0 {
+		first = first[:i]
+	}
+	if j := strings.Index(first, "panic: "); j >= 0 {
+		first = first[j+len("panic: "):]
+	}
+	switch {
+	case strings.Contains(first, "nil pointer dereference"):
+		return "nil-deref"
+	case strings.Contains(first, "index out of range"):
+		return "index-out-of-range"
+	case strings.Contains(first, "slice bounds out of range"):
+		return "slice-bounds"
+	case strings.Contains(first, "interface conversion"):
+		return "interface-conversion"
+	case strings.Contains(first, "divide by zero"):
+		return "divide-by-zero"
+	case strings.Contains(first, "unhashable"):
+		return "unhashable"
+	case strings.Contains(first, "reflect"):
+		return "reflect"
+	}
+	w := strings.Fields(first)
+	if len(w) > 4 {
+		w = w[:4]
+	}
+	return strings.ToLower(strings.Join(w, "-"))
+}
+
 // ---------- the space ----------
 
 type caseT struct {
-	part  string // a | a-arity | a-curry | b | c
-	name  string // function (or mechanism) the class is attributed to
-	what  string // literal description
-	req   *pb.EvaluateRequestProto
-	inner *caseInner // for compositions: the inner call, to attribute panics
-}
-
-type caseInner struct {
-	name string
-	req  *pb.EvaluateRequestProto
+	part   string // a | a-empty | a-arity | a-curry | b | c
+	name   string // function (or "vm" for mechanisms) the class is attributed to
+	what   string // literal description
+	req    *pb.EvaluateRequestProto
+	worlds []int // nil: the small world only
 }
 
 type space struct {
-	worlds int
 	// part (a): per function the radices of its menus
 	fns     []fn
 	menus   [][][]snip // per function, per arg position
 	offsets []int64    // cumulative case offsets of part (a)
 	nA      int64
-	extra   []func() caseT // a-arity, a-curry, b, c (built on demand)
+	extra   []func() caseT // a-empty, a-arity, a-curry, b, c (built on demand)
 }
 
 func (s *space) Len() int64 { return s.nA + int64(len(s.extra)) }
@@ -312,31 +382,91 @@ func (s *space) caseAt(i int64) caseT {
 	return caseT{part: "a", name: f.name, what: label(f.name, args), req: request(callProto(symProto(f.name), protos(args)...))}
 }
 
+// producers returns the top-level arguments of the request that are
+// themselves calls of a named function.
+func producers(req *pb.EvaluateRequestProto) (names []string, nodes []*pb.NodeProto) {
+	c := req.GetRequest().GetCall()
+	if c == nil {
+		return
+	}
+	for _, a := range c.Args {
+		if ac := a.GetCall(); ac != nil && ac.GetFunction().GetSymbol() != "" {
+			names = append(names, ac.GetFunction().GetSymbol())
+			nodes = append(nodes, a)
+		}
+	}
+	return
+}
+
+// attribute turns an observed failure of a request into the violation class.
+//   - a panic while decoding the message: decode:<site>
+//   - an argument that alone fails the same way: that argument's function
+//   - a nil dereference when an argument evaluates to a nil feature (find-area,
+//     find-relation, find-collection, closest... of something absent):
+//     <producer>:nil-result-dereferenced
+//   - otherwise the called function; mechanisms (curry, arity, malformed
+//     messages outside a function call) are "vm"
+//
+// Sites in the generic VM package carry the kind of panic, because one VM
+// function hosts several distinct defects.
+func attribute(c caseT, f failure, world int) string {
+	withKind := func(cl string) string {
+		if strings.HasPrefix(cl, "panic@b6/api.") {
+			return cl + "[" + panicKind(f.msg[strings.Index(f.msg, "]")+1:]) + "]"
+		}
+		return cl
+	}
+	if f.decode {
+		return "decode:" + f.class
+	}
+	name := c.name
+	pn, nodes := producers(c.req)
+	for j := range pn {
+		fails, _, _, nilVal := evalRequest(pn[j], request(nodes[j]), world)
+		for _, pf := range fails {
+			if pf.class == f.class {
+				return pn[j] + ":" + withKind(f.class)
+			}
+		}
+		if nilVal && len(fails) == 0 && strings.Contains(f.msg, "nil pointer dereference") {
+			return pn[j] + ":nil-result-dereferenced"
+		}
+	}
+	if (c.part == "a-curry" || c.part == "a-arity") && !strings.Contains(f.class, "b6/api/functions.") {
+		name = "vm"
+	}
+	return name + ":" + withKind(f.class)
+}
+
+// reported limits the violations emitted by one process to one per class
+// (the kit keeps at most 2000 violations in total; thousands of requests hit
+// the same defect). The true number per class is kept in the counters.
+var reported = map[string]bool{}
+
 func (s *space) Run(i int64) kit.Result {
 	c := s.caseAt(i)
 	var r kit.Result
 	r.Key = c.what
-	for w := 0; w < s.worlds; w++ {
-		wname := []string{"small-world", "empty-world"}[w]
-		viol, outcome, reached := evalRequest(c.what, c.req, w)
+	worlds := c.worlds
+	if worlds == nil {
+		worlds = []int{0}
+	}
+	for _, w := range worlds {
+		wname := []string{"small world", "empty world"}[w]
+		fails, outcome, reached, _ := evalRequest(c.what, c.req, w)
 		r.Evals += 2
 		r.AddOutcome(c.part + ":" + outcome)
 		if reached {
 			r.Nontrivial = true
 		}
-		for cl, msg := range viol {
-			name := c.name
-			if c.inner != nil {
-				// attribute to the inner call when it alone reproduces the same failure
-				iv, _, _ := evalRequest(c.inner.name, c.inner.req, w)
-				if _, same := iv[cl]; same {
-					name = c.inner.name
-				}
+		for _, f := range fails {
+			class := attribute(c, f, w)
+			r.Count("violations:"+class, 1)
+			if reported[class] {
+				continue
 			}
-			if (c.part == "a-curry" || c.part == "a-arity") && !strings.Contains(cl, "b6/api/functions.") {
-				name = c.part[2:]
-			}
-			r.Violations = append(r.Violations, kit.Violation{Class: name + ":" + cl, Msg: fmt.Sprintf("request %s against the %s: %s", c.what, wname, msg), Case: c.what})
+			reported[class] = true
+			r.Violations = append(r.Violations, kit.Violation{Class: class, Msg: fmt.Sprintf("request %s against the %s: %s", c.what, wname, f.msg), Case: c.what})
 		}
 	}
 	if i%977 == 0 {
@@ -344,6 +474,12 @@ func (s *space) Run(i int64) kit.Result {
 	}
 	return r
 }
+
+// Functions whose integer parameters are s2 cell levels / tile zooms: the
+// output grows as 4^level, so feeding them unbounded numbers (areas, sums)
+// is a legitimately astronomically large computation, not a hang. Part (a)
+// covers them with levels {-2,0,1,3,24}; part (b) does not compose into them.
+var levelParams = map[string]bool{"s2-grid": true, "s2-covering": true, "s2-points": true, "tile-paths": true}
 
 func product(ms [][]snip) int64 {
 	p := int64(1)
@@ -356,9 +492,12 @@ func product(ms [][]snip) int64 {
 func build(tier string) (kit.Space, string) {
 	thorough := tier == "thorough"
 	menus := allMenus()
-	s := &space{worlds: 1}
+	s := &space{}
+	// extras run against the small world, and in the thorough tier also
+	// against an empty world
+	var extraWorlds []int
 	if thorough {
-		s.worlds = 2
+		extraWorlds = []int{0, 1}
 	}
 	s.fns = registry()
 	cache := map[reflect.Type][]snip{}
@@ -399,10 +538,42 @@ func build(tier string) (kit.Space, string) {
 	}
 	anyMenu := menuOf(tAny)
 
-	add := func(f func() caseT) { s.extra = append(s.extra, f) }
+	add := func(f func() caseT) {
+		s.extra = append(s.extra, func() caseT {
+			c := f()
+			if c.worlds == nil {
+				c.worlds = extraWorlds
+			}
+			return c
+		})
+	}
 	callCase := func(part, name string, args []snip) func() caseT {
 		return func() caseT {
 			return caseT{part: part, name: name, what: label(name, args), req: request(callProto(symProto(name), protos(args)...))}
+		}
+	}
+
+	// --- (a) against the empty world (thorough): every parameter over its whole
+	// menu with the other parameters at their plain value
+	nStar := 0
+	if thorough {
+		for fi, f := range s.fns {
+			if len(f.params) == 0 {
+				add(callCase("a-empty", f.name, nil))
+				nStar++
+			}
+			for pi := range f.params {
+				for _, x := range s.menus[fi][pi] {
+					args := goodArgs(f)
+					args[pi] = x
+					add(func() caseT {
+						c := callCase("a-empty", f.name, args)()
+						c.worlds = []int{1}
+						return c
+					})
+					nStar++
+				}
+			}
 		}
 	}
 
@@ -485,7 +656,7 @@ func build(tier string) (kit.Space, string) {
 	for _, f := range s.fns {
 		for pi, pt := range f.params {
 			for _, g := range s.fns {
-				if !compatible(g.t.Out(0), pt) {
+				if !compatible(g.t.Out(0), pt) || levelParams[f.name] {
 					continue
 				}
 				nv := 1
@@ -508,8 +679,7 @@ func build(tier string) (kit.Space, string) {
 						}
 						ls[pi] = label(g.name, gargs)
 						return caseT{part: "b", name: f.name, what: "(" + f.name + " " + strings.Join(ls, " ") + ")",
-							req:   request(callProto(symProto(f.name), fp...)),
-							inner: &caseInner{name: g.name, req: request(gp)}}
+							req: request(callProto(symProto(f.name), fp...))}
 					})
 					nB++
 				}
@@ -528,10 +698,11 @@ func build(tier string) (kit.Space, string) {
 		})
 	}
 
-	bound := fmt.Sprintf("%d registered functions; part (a): %d argument tuples (full product of the per-parameter menus, %s tier menus: every snippet of the parameter's categories + 2 ill-typed) + arity/curry variants; "+
+	bound := fmt.Sprintf("%d registered functions; part (a): %d argument tuples against the small world (full product of the per-parameter menus, %s tier menus: every snippet of the parameter's categories + 2 ill-typed)%s + %d arity/curry variants; "+
 		"part (b): %d depth-2 compositions f(..g(good%s)..) over every type-compatible (f, parameter, g); part (c): %d malformed/edge NodeProto and EvaluateRequestProto messages; "+
-		"%d world variant(s) (small world%s); integer arguments <= 24 (s2/tile levels above that produce astronomically many cells); hang limit %v",
-		len(s.fns), s.nA, tier, nB, map[bool]string{true: "|edge", false: ""}[thorough], nC, s.worlds, map[bool]string{true: ", empty world", false: ""}[thorough], hangConfirm)
+		"arity/curry variants, (b) and (c) against the small world%s; integer arguments <= 24 (s2/tile levels above that produce astronomically many cells); hang limit %v CPU",
+		len(s.fns), s.nA, tier, map[bool]string{true: fmt.Sprintf(" + %d tuples against the empty world (each parameter over its whole menu, the others plain)", nStar), false: ""}[thorough],
+		len(s.extra)-nStar-nB-nC, nB, map[bool]string{true: "|edge", false: ""}[thorough], nC, map[bool]string{true: " and the empty world", false: ""}[thorough], hangCPU)
 	return s, bound
 }
 
@@ -546,11 +717,11 @@ func main() {
 		Assumptions: []string{
 			"requests are what proto.Unmarshal can produce from bytes (oneof wrappers never hold nil messages, repeated fields never hold nil elements)",
 			"FileIOAllowed=false (the option of api.Options that guards parse-geojson-file, import-geojson-file, changes-to-file, changes-from-file, export-world), Cores=2",
-			"a request that does not finish within 5 s (normal: < 50 ms) on a 14-feature world is a hang; menus exclude s2/tile levels > 24 whose legitimately exponential outputs would be indistinguishable from one",
+			"a request that has not finished after 3 s of CPU time (normal: < 0.05 s) on a 14-feature world is a hang; menus exclude s2/tile levels > 24 whose legitimately exponential outputs would be indistinguishable from one",
 		},
 		Build:            build,
 		CaseTimeout:      caseTimeout,
-		Chunk:            64,
+		Chunk:            2, // neighbouring cases (often the same defect) go to different workers
 		QuickDeadline:    150 * time.Second,
 		ThoroughDeadline: 25 * time.Minute,
 		MaxSamples:       6,
